@@ -53,7 +53,7 @@ def j2b(x):
     return x
 
 
-def main(cases, oracle, bound, budget_s=(20, 240)):
+def main(cases, oracle, bound, budget_s=(30, 300)):
     logging.disable(logging.CRITICAL)
     ap = argparse.ArgumentParser()
     ap.add_argument('--tier', default='quick')
@@ -73,6 +73,7 @@ def main(cases, oracle, bound, budget_s=(20, 240)):
         sys.exit(0)
     rng = random.Random(a.seed)
     t0 = time.time()
+    c0 = time.process_time()          # the budget is CPU time of this process: the sweep covers the same inputs on a busy machine
     budget = budget_s[0] if a.tier == 'quick' else budget_s[1]
     n = 0
     fails = []
@@ -91,7 +92,7 @@ def main(cases, oracle, bound, budget_s=(20, 240)):
                 fails.append({'class': cls, 'input': inp, 'detail': r[:600]})
             if len(fails) >= 3:
                 break
-        if time.time() - t0 > budget:
+        if time.process_time() - c0 > budget or time.time() - t0 > 10 * budget:
             break
-    print(json.dumps({'evaluations': n, 'failures': fails, 'bound': bound, 'wall_s': round(time.time() - t0, 2),
-                      'label': 'bounded', 'complete_sweep': time.time() - t0 <= budget}))
+    print(json.dumps({'evaluations': n, 'failures': fails, 'bound': bound, 'wall_s': round(time.time() - t0, 2), 'cpu_s': round(time.process_time() - c0, 2),
+                      'label': 'bounded', 'complete_sweep': time.process_time() - c0 <= budget and time.time() - t0 <= 10 * budget}))
